@@ -29,6 +29,7 @@ type Program struct {
 	gconsts  map[*ssa.Global]*ssa.Const
 	initStores map[*ssa.Store]bool
 	initDone   map[*ssa.Function]bool
+	heapKeys   []string
 }
 
 func loadProgram(repo, libDir string) (*Program, error) {
@@ -294,4 +295,89 @@ func (p *Program) namedType(name string) types.Type {
 		}
 	}
 	return nil
+}
+
+// heapKeyUniverse: every kind of memory cell module code can touch (closure of the types of all SSA values of module functions
+// under pointer/slice/map/array element and struct field). The entry state of a proof materialises all of them, so that a
+// havoc that ranges over "every heap array" (a contract applied at a call site, a loop cut at its invariant) also covers arrays
+// the function reads for the first time only afterwards.
+func (p *Program) heapKeyUniverse() []string {
+	if p.heapKeys != nil {
+		return p.heapKeys
+	}
+	seenT := map[string]bool{}
+	keys := map[string]bool{"C:bytes": true, "M:has": true, "C:iface#t": true, "C:iface#v": true, "C:string": true, "C:int": true, "C:bool": true, "C:func": true}
+	var visit func(t types.Type)
+	visit = func(t types.Type) {
+		if t == nil {
+			return
+		}
+		ts := types.TypeString(t, nil)
+		if seenT[ts] {
+			return
+		}
+		seenT[ts] = true
+		switch k := kindOf(t); k {
+		case "tuple":
+			tu := t.(*types.Tuple)
+			for i := 0; i < tu.Len(); i++ {
+				visit(tu.At(i).Type())
+			}
+			return
+		case "nil":
+			return
+		case "struct":
+			s := t.Underlying().(*types.Struct)
+			for i := 0; i < s.NumFields(); i++ {
+				visit(s.Field(i).Type())
+			}
+			return
+		default:
+			func() {
+				defer func() { recover() }()
+				ks, _ := cellKeys(t)
+				for _, k := range ks {
+					keys[k] = true
+				}
+			}()
+		}
+		switch u := t.Underlying().(type) {
+		case *types.Pointer:
+			visit(u.Elem())
+		case *types.Slice:
+			visit(u.Elem())
+		case *types.Array:
+			visit(u.Elem())
+		case *types.Map:
+			visit(u.Key())
+			visit(u.Elem())
+		}
+	}
+	for f := range p.names {
+		for _, prm := range f.Params {
+			visit(prm.Type())
+		}
+		for _, fv := range f.FreeVars {
+			visit(fv.Type())
+		}
+		for _, b := range f.Blocks {
+			for _, ins := range b.Instrs {
+				if v, ok := ins.(ssa.Value); ok {
+					visit(v.Type())
+				}
+			}
+		}
+	}
+	for _, pk := range p.pkgs {
+		for _, m := range pk.Members {
+			if g, ok := m.(*ssa.Global); ok {
+				visit(g.Type())
+			}
+		}
+	}
+	for k := range keys {
+		p.heapKeys = append(p.heapKeys, k)
+	}
+	sort.Strings(p.heapKeys)
+	return p.heapKeys
 }
